@@ -251,7 +251,10 @@ class Renderer:
                 if lay.on("linecomment", 0.12):
                     text.append(rng.choice(["", "  ", "\t"]) + ";" + rng.choice(["", " "]) + rng.choice(COMMENT_WORDS))
                 if lay.on("blockcomment", 0.08) and not ln.startswith("} else"):
-                    if rng.random() < 0.5:
+                    k_ = rng.random()
+                    if k_ < 0.2:
+                        text.append(rng.choice(["", "  "]) + rng.choice(["/**/", "/***/", "/* */", "/*/*/", "/** **/", "/*\t*/"]))
+                    elif k_ < 0.55:
                         text.append(rng.choice(["", "  "]) + "/* " + rng.choice(COMMENT_WORDS).replace("*/", "") + " */")
                     else:
                         text.append("/* " + rng.choice(COMMENT_WORDS).replace("*/", ""))
